@@ -116,6 +116,36 @@ TABLE = {
             "(count +1 and take its time) or be the equal-time redelivery branch; merging is restricted to equal message "
             "and severity; fresh entries start at 1 and become `latest`.",
             "The earlier-time branch violates the rule today (open known finding). Does not decide what the engine logs."),
+    "C06": ("finite abstract interpretation (explicit-state) of the run-state machine extracted from the command classes, Engine.tick and the gating function",
+            "The transfer functions of the seven control commands (segmented at `yield`), their cancel overrides, Engine.tick "
+            "and _validate_control_command are interpreted from their CFGs over {started, paused, holding, stopping} x System "
+            "State x Run Id x in-flight commands x pending user request; every sequence of user and method commands is "
+            "explored to a fix-point (finite domain, so all lengths), checking the state invariant at every tick boundary "
+            "and the gating table on every reachable state. Tests play a handful of sequences; this covers all of them for "
+            "the abstracted machine.",
+            "Scheduling model read off CommandManager (newest request first, one generator step per tick, commands orphaned "
+            "by _stop_interpreter); calls outside the domain have only the tabulated effects (evidence.call_model); timed waits "
+            "are nondeterministic. set_error_state from a stopped engine breaks the invariant but is outside the property's "
+            "quantifier (recorded by the thorough tier as observation)."),
+    "C07": ("abstract interpretation of update_calculated_tags over System State + sibling rule and model check for the Block/Scope Time gate + run-start sibling agreement",
+            "Which System States let Process/Run Time advance is computed by interpreting update_calculated_tags for every "
+            "state; the Block/Scope Time gate table is extracted from tags_impl and every site that leaves Running must emit a "
+            "closing signal (confirmed on the extracted run-state machine with faults); Start and the last segment of "
+            "Restart must perform the same resets.",
+            "Numeric increments and threshold timing are not decided. Hold and the error pause emit no signal today (open known findings)."),
+    "C08": ("reachability/ordering on the extracted run-state machine with ghost variables for output tags and hardware + structural pause-site rule",
+            "Ghost variables follow whether the output tags hold live or safe values and what was last written to the "
+            "hardware; engine start, every completing Stop and every pause state are checked; every pause site must apply the "
+            "safe state; Engine.tick evaluated with paused=True must not reach UOD command execution; hardware writes in engine "
+            "code must be guarded by _runstate_started.",
+            "What UOD callbacks compute is not modelled (any executing UOD command may write any output). Three design-level "
+            "violations are open known findings (dead start-up write, error pause without safe state, UOD commands run while paused)."),
+    "C09": ("captured-state kill rule (structural, per generator segment) + model check of restores on the extracted run-state machine",
+            "Every function that ends a pause or crosses a run boundary must clear or consume Engine._prev_state within the "
+            "same generator segment; Pause must not capture over an outstanding capture; writers of _prev_state are "
+            "enumerated; on the extracted machine (with error pauses) no reachable Unpause restores a capture from an "
+            "earlier run, an already-undone pause, or safe values captured during a pause.",
+            "Decides that a capture cannot outlive its pause; equality of the restored tag values is value-level and not decided."),
 }
 
 DESIGN_NA = {
